@@ -391,3 +391,67 @@ func Run(h func()) (fails []string, applicable bool, panicked any) {
 func Describe(fails []string, applicable bool, panicked any) string {
 	return fmt.Sprintf("fails=%v applicable=%v panic=%v", fails, applicable, panicked)
 }
+
+// ---- goroutine harnesses (BMC). The interpreter gives these their model
+// meaning; the native bodies below serve replays (see bmc_native.go).
+
+// Go registers an environment goroutine.
+func Go(name string, f func()) { nativeGo(name, f) }
+
+// Final states a condition that must hold whenever nothing can move any more.
+func Final(label string, f func() bool) { nativeFinal(label, f) }
+
+// Invariant states a condition that must hold in every reachable state.
+func Invariant(label string, f func() bool) { nativeInvariant(label, f) }
+
+// Closed reports whether the channel has been closed (state predicate).
+func Closed(ch any) bool { return nativeClosed(ch) }
+
+// ChanLen is the number of buffered elements (state predicate).
+func ChanLen(ch any) int { return reflectLen(ch) }
+
+// LibExited reports whether every library goroutine has returned.
+func LibExited() bool { return nativeLibExited() }
+
+// Exited reports whether the named environment goroutine has returned.
+func Exited(name string) bool { return nativeExited(name) }
+
+// Daemon declares library goroutines started by functions with this name prefix
+// as permitted to outlive the run (e.g. a pacer that lives until cancel).
+func Daemon(prefix string) {}
+
+// Now is the virtual clock.
+func Now() int { return nativeNow() }
+
+// Straight-line boolean connectives: unlike && and || they do not branch, so
+// the symbolic executor builds one formula instead of forking.
+func And(a, b bool) bool     { return a && b }
+func Or(a, b bool) bool      { return a || b }
+func Not(a bool) bool        { return !a }
+func Implies(a, b bool) bool { return !a || b }
+
+// All / Any: conjunction / disjunction of the arguments without branching.
+func All(cs ...bool) bool {
+	for _, c := range cs {
+		if !c {
+			return false
+		}
+	}
+	return true
+}
+func Any(cs ...bool) bool {
+	for _, c := range cs {
+		if c {
+			return true
+		}
+	}
+	return false
+}
+
+// Ite is "if c then a else b" without branching.
+func Ite[T any](c bool, a, b T) T {
+	if c {
+		return a
+	}
+	return b
+}
